@@ -298,13 +298,19 @@ Fixpoint trim_head (back : bool) (s : bytes) : bytes :=
          end
   end.
 
-Definition trim (s : bytes) : bytes := rev (trim_head true (rev (trim_head false s))).
+(* rev_append _ [] is list reversal (the library's rev is quadratic) *)
+Definition trim (s : bytes) : bytes :=
+  rev_append (trim_head true (rev_append (trim_head false s) [])) [].
 
 (* ---- History.Write ---- *)
 Record wr := { w_ts : bytes; w_cmd : bytes }.
 
-Definition ends_nl (f : bytes) : bool :=
-  match rev f with [] => true | c :: _ => c =? 10 end.
+(* the file is empty or its last byte is "\n" *)
+Fixpoint ends_nl (f : bytes) : bool :=
+  match f with
+  | [] => true
+  | c :: f' => match f' with [] => c =? 10 | _ :: _ => ends_nl f' end
+  end.
 
 (* "\n" first when the file has a torn tail (fix F29b) *)
 Definition sep (f : bytes) : bytes := if ends_nl f then [] else [10].
@@ -318,10 +324,16 @@ Definition write1 (f : bytes) (w : wr) : bytes := f ++ delta f w.
 
 (* the in-memory list: consecutive duplicates are one entry (compared untrimmed-after-trim,
    i.e. on the block); note an empty block IS appended in memory *)
+Fixpoint last_opt (m : list bytes) : option bytes :=
+  match m with
+  | [] => None
+  | x :: m' => match m' with [] => Some x | _ :: _ => last_opt m' end
+  end.
+
 Definition mem_write (m : list bytes) (blk : bytes) : list bytes :=
-  match rev m with
-  | x :: _ => if bytes_eqb x blk then m else m ++ [blk]
-  | [] => [blk]
+  match last_opt m with
+  | Some x => if bytes_eqb x blk then m else m ++ [blk]
+  | None => [blk]
   end.
 
 Definition mem_write1 (m : list bytes) (w : wr) : list bytes := mem_write m (trim (w_cmd w)).
